@@ -7,14 +7,16 @@ import traceback
 def domain_check(prop, target, tier, seed):
     """bounded stand-in / engine cross-check: the executable form of the contract evaluated on the
     real function over the contract's stated native domain"""
-    from . import native, modelval, contract as C
+    from . import native, modelval, cli, contract as C
 
     c = [x for x in C.BY_PROP[prop] if x.target == target][0]
+    known = [k for k in cli.load_known(prop) if k.get("status") == "known" and k.get("target") == target and k.get("class")]
     dom = c.native_domain(tier, seed)
     n = 0
     nontrivial = 0
     failures = []
     samples = []
+    known_hits = {}
     for inputs in dom["cases"]:
         r = native.run_case(c, inputs)
         if r["status"] == "pre-false":
@@ -23,10 +25,17 @@ def domain_check(prop, target, tier, seed):
         nontrivial += 1
         if len(samples) < 3:
             samples.append(modelval.to_json(inputs))
-        if r["status"] != "pass" and len(failures) < 5:
-            failures.append({"target": target, "inputs": modelval.to_json(inputs), "clause": ",".join(r.get("failed", [])) or r.get("detail"), "observed": r.get("observed")})
+        if r["status"] != "pass":
+            failed = list(r.get("failed", []))
+            for kf in known:
+                lab = "ensures[%s]" % kf["label"]
+                if lab in failed and native.eval_on_inputs(c, inputs, kf["class"]):
+                    failed.remove(lab)  # a listed finding, not a new violation
+                    known_hits[kf["id"]] = known_hits.get(kf["id"], 0) + 1
+            if (failed or not r.get("failed")) and len(failures) < 5:
+                failures.append({"target": target, "inputs": modelval.to_json(inputs), "clause": ",".join(failed) or r.get("detail"), "observed": r.get("observed")})
     return {"kind": "bounded", "evaluations": n, "distinct_nontrivial": nontrivial, "failures": failures, "exhaustive": False,
-            "bound": dom.get("bound"), "domain": dom.get("domain"), "samples": samples}
+            "bound": dom.get("bound"), "domain": dom.get("domain"), "samples": samples, "known_hits": known_hits}
 
 
 def main(prop, name, tier, seed):
